@@ -50,6 +50,19 @@ def canon_digest(o):
     return h.hexdigest()[:20]
 
 
+def handle_plain(data):
+    """a route registered as a PLAIN callable that returns an awaitable (`Callable[[Any], Awaitable]`): it validates
+    its argument when it is CALLED, i.e. it can raise before any coroutine exists.  That failure, too, is the
+    response to the request that caused it."""
+    if isinstance(data, dict) and data.get('err') == 'call':
+        k = data.get('k')
+        d = canon_digest(data.get('body'))
+        log('hstart', k, d)
+        log('finish', k)
+        raise HandlerError(k, d)
+    return handle(data)
+
+
 async def handle(data):
     """the routed handler: reports what it received, waits `lat` ms, answers or raises"""
     k = data.get('k') if isinstance(data, dict) else None
